@@ -21,17 +21,26 @@ import (
 	"verifharness/hx"
 
 	"github.com/google/uuid"
+	clientv3 "go.etcd.io/etcd/client/v3"
 
 	"github.com/projecteru2/core/discovery/helium"
 	enginefactory "github.com/projecteru2/core/engine/factory"
 	"github.com/projecteru2/core/store"
 	"github.com/projecteru2/core/store/etcdv3"
+	"github.com/projecteru2/core/store/etcdv3/embedded"
 	"github.com/projecteru2/core/types"
 )
+
+// txop is one write of a multi-key etcd transaction on /services/ (one watch response with several events)
+type txop struct {
+	Put string `json:"put,omitempty"`
+	Del string `json:"del,omitempty"`
+}
 
 type step struct {
 	Reg   string `json:"reg,omitempty"`   // global: register this address
 	Dereg string `json:"dereg,omitempty"` // global: deregister this address
+	Txn   []txop `json:"txn,omitempty"`   // global: one transaction writing several /services/ keys, in this order
 	Op    string `json:"op,omitempty"`    // sub | cancel | unsub | closewatch | ""
 	Sid   int    `json:"sid,omitempty"`
 	Mode  string `json:"mode,omitempty"` // reader | slow
@@ -202,7 +211,7 @@ func (in *instance) observe() obs {
 }
 
 // runBatch executes the cases of one batch (same length, same global reg/dereg timeline) concurrently.
-func runBatch(t *testing.T, m *etcdv3.Mercury, ks []*kase) {
+func runBatch(t *testing.T, m *etcdv3.Mercury, cli *clientv3.Client, ks []*kase) {
 	ctx, cancel := context.WithCancel(context.Background())
 	defer cancel()
 	ins := make([]*instance, len(ks))
@@ -211,10 +220,15 @@ func runBatch(t *testing.T, m *etcdv3.Mercury, ks []*kase) {
 		ins[i] = &instance{h: helium.New(ctx, types.GRPCConfig{ServiceDiscoveryPushInterval: time.Second}, rs), relay: rs, subs: map[int]*subscriber{}}
 	}
 	unreg := map[string]func(){}
+	txnKeys := map[string]bool{}
 	defer func() {
 		for _, f := range unreg {
 			f()
 		}
+		for k := range txnKeys {
+			cli.Delete(context.Background(), "/services/"+k) //nolint
+		}
+		time.Sleep(100 * time.Millisecond)
 	}()
 	results := make([][]obs, len(ks))
 	nsteps := len(ks[0].Steps)
@@ -233,6 +247,20 @@ func runBatch(t *testing.T, m *etcdv3.Mercury, ks []*kase) {
 			if f := unreg[g.Dereg]; f != nil {
 				f()
 				delete(unreg, g.Dereg)
+			}
+		}
+		if len(g.Txn) > 0 {
+			ops := []clientv3.Op{}
+			for _, o := range g.Txn {
+				if o.Put != "" {
+					ops = append(ops, clientv3.OpPut("/services/"+o.Put, ""))
+					txnKeys[o.Put] = true
+				} else {
+					ops = append(ops, clientv3.OpDelete("/services/"+o.Del))
+				}
+			}
+			if _, err := cli.Txn(ctx).Then(ops...).Commit(); err != nil {
+				t.Logf("txn: %v", err)
 			}
 		}
 		for i, k := range ks {
@@ -254,11 +282,43 @@ func runBatch(t *testing.T, m *etcdv3.Mercury, ks []*kase) {
 
 var addrs = []string{"10.0.0.1:5001", "10.0.0.2:5001", "10.0.0.3:5001"}
 
+// addresses written directly by multi-key transactions (no lease, no heartbeat)
+var txAddrs = []string{"10.0.1.1:5001", "10.0.1.2:5002", "10.0.1.3:5003", "10.0.1.4:5004"}
+
 // global registration timeline of a batch
 func genTimeline(r *hx.Rng, n int) []step {
 	reg := map[string]bool{}
+	tx := map[string]bool{}
 	tl := make([]step, n)
 	for i := range tl {
+		if r.Chance(45) {
+			// one transaction with 2-4 writes on distinct keys; the last one is often a no-op (re-put of a
+			// present address, delete of an absent one) after an earlier write that changes the set
+			perm := append([]string{}, txAddrs...)
+			hx.Shuffle(r, perm)
+			k := r.Range(2, 4)
+			ops := []txop{}
+			for j := 0; j < k; j++ {
+				a := perm[j]
+				last := j == k-1
+				switch {
+				case last && r.Chance(60):
+					if tx[a] {
+						ops = append(ops, txop{Put: a})
+					} else {
+						ops = append(ops, txop{Del: a})
+					}
+				case tx[a] && r.Chance(50):
+					ops = append(ops, txop{Del: a})
+					delete(tx, a)
+				default:
+					ops = append(ops, txop{Put: a})
+					tx[a] = true
+				}
+			}
+			tl[i].Txn = ops
+			continue
+		}
 		if r.Chance(70) {
 			a := hx.Pick(r, addrs...)
 			if reg[a] {
@@ -341,7 +401,25 @@ func corpusBatch() []*kase {
 		mk("c-slow-blocks-others", step{Op: "sub", Sid: 1, Mode: "reader"}, step{Op: "sub", Sid: 2, Mode: "slow"}, step{}, step{Op: "unsub", Sid: 1}, step{}),
 		mk("c-slow-self-unsub", step{Op: "sub", Sid: 1, Mode: "slow"}, step{}, step{Op: "unsub", Sid: 1}, step{}, step{}),
 		mk("c-watch-closed", step{Op: "sub", Sid: 1, Mode: "reader"}, step{Op: "closewatch"}, step{Op: "sub", Sid: 2, Mode: "reader"}, step{Op: "cancel", Sid: 1}, step{Op: "unsub", Sid: 1}),
+		mk("c-two-readers-b", step{Op: "sub", Sid: 1, Mode: "reader"}, step{Op: "sub", Sid: 2, Mode: "reader"}, step{}, step{}, step{}),
 		mk("c-slow-cancelled-recovers", step{Op: "sub", Sid: 1, Mode: "reader"}, step{Op: "sub", Sid: 2, Mode: "slow"}, step{Op: "cancel", Sid: 2}, step{Op: "unsub", Sid: 2}, step{}),
+	}
+}
+
+// second fixed batch: transactions whose last write is a no-op after a changing write
+func corpusTxnBatch() []*kase {
+	a, b, c := txAddrs[0], txAddrs[1], txAddrs[2]
+	tl := []step{{Txn: []txop{{Put: a}, {Put: b}}}, {Txn: []txop{{Put: c}, {Put: a}}}, {Txn: []txop{{Del: b}, {Put: c}}}, {Txn: []txop{{Del: a}, {Del: c}, {Put: b}}}}
+	mk := func(id string, ops ...step) *kase {
+		st := append([]step{}, tl...)
+		for i := range ops {
+			st[i].Op, st[i].Sid, st[i].Mode = ops[i].Op, ops[i].Sid, ops[i].Mode
+		}
+		return &kase{ID: id, Steps: st}
+	}
+	return []*kase{
+		mk("c-txn-noop-last", step{Op: "sub", Sid: 1, Mode: "reader"}, step{}, step{Op: "sub", Sid: 2, Mode: "reader"}, step{}),
+		mk("c-txn-noop-last-late-sub", step{}, step{Op: "sub", Sid: 1, Mode: "reader"}, step{}, step{Op: "unsub", Sid: 1}),
 	}
 }
 
@@ -360,11 +438,12 @@ func TestGen(t *testing.T) {
 	out := hx.OpenOut()
 	defer out.Close()
 	waitMs := hx.EnvInt("VERIF_HELIUM_WAIT_MS", 1600)
+	cli := embedded.NewCluster(t, cfg.Etcd.Prefix).RandClient() // the same (namespaced) client the store uses
 	emit := func(ks []*kase) {
 		for _, k := range ks {
 			k.WaitMs = waitMs
 		}
-		runBatch(t, m, ks)
+		runBatch(t, m, cli, ks)
 		for _, k := range ks {
 			out.Emit(k)
 		}
@@ -390,6 +469,7 @@ func TestGen(t *testing.T) {
 	r := hx.NewRng(hx.Seed())
 	n := hx.EnvInt("VERIF_CASES", 30)
 	emit(corpusBatch())
+	emit(corpusTxnBatch())
 	batch := hx.EnvInt("VERIF_HELIUM_BATCH", 24)
 	for bi := 0; out.N < n; bi++ {
 		nsteps := r.Range(4, 6)
